@@ -2198,7 +2198,7 @@ Lemma lk_rest : forall a b k1 k2, dopts_lk a b ->
   nonempty (assoc_del beq k1 (assoc_del beq k2 a)) = nonempty (assoc_del beq k1 (assoc_del beq k2 b)).
 Proof.
   intros a b k1 k2 L. pose proof (lk_keys _ _ L) as K.
-  assert (X : forall a b, (forall k, In k (map fst a) <-> In k (map fst b)) ->
+  assert (X : forall a b : dopts, (forall k, In k (map fst a) <-> In k (map fst b)) ->
               nonempty (assoc_del beq k1 (assoc_del beq k2 a)) = true -> nonempty (assoc_del beq k1 (assoc_del beq k2 b)) = true).
   { intros a0 b0 K0 H. apply nonempty_keys in H. destruct H as [k I]. apply nonempty_keys. exists k.
     rewrite !adel_keys in *. rewrite <- K0. exact I. }
@@ -2248,7 +2248,7 @@ Lemma lk_renamed : forall name a b, remap_unique name a = true -> remap_unique n
   dopts_lk (renamed name a) (renamed name b).
 Proof.
   intros name a b UA UB L.
-  assert (X : forall a b, remap_unique name a = true -> remap_unique name b = true -> dopts_lk a b ->
+  assert (X : forall a b : dopts, remap_unique name a = true -> remap_unique name b = true -> dopts_lk a b ->
               forall k v, assoc_get beq k (renamed name a) = Some v -> assoc_get beq k (renamed name b) = Some v).
   { intros a0 b0 U0 U1 L0 k v H. apply (aget_In beq beq_eq) in H. unfold renamed in H. apply in_map_iff in H.
     destruct H as ([k0 v0] & E & I). cbn in E. injection E as <- <-.
@@ -2257,9 +2257,9 @@ Proof.
     apply (nodup_aget beq beq_eq wv_eq); [apply keys_unique_NoDup; exact U1|].
     unfold renamed. apply in_map_iff. exists (k0, v0). auto. }
   intro k. destruct (assoc_get beq k (renamed name a)) as [v|] eqn:E1.
-  - symmetry. eapply X; eauto.
+  - symmetry. exact (X a b UA UB L k v E1).
   - destruct (assoc_get beq k (renamed name b)) as [w|] eqn:E2; auto.
-    rewrite (X b a UB UA) with (v := w) in E1; auto. intro; symmetry; auto.
+    pose proof (X b a UB UA (fun k => eq_sym (L k)) k w E2) as Y. congruence.
 Qed.
 Lemma lk_remap : forall name a b, remap_unique name a = true -> remap_unique name b = true -> dopts_lk a b ->
   dopts_lk (remap name a) (remap name b).
@@ -2284,12 +2284,12 @@ Lemma call_container_lk : forall n a b, dopts_lk a b -> call_container n a = cal
 Proof. intros n a b L. unfold call_container. rewrite (lk_only_keys a b), (lk_kw a b); auto. Qed.
 Lemma call_preamble_lk : forall a b, psec_lk a b -> call_preamble a = call_preamble b.
 Proof.
-  intros a b [L C]. unfold call_preamble. rewrite C. destruct (p_content b); auto. destruct (is_nil t); auto.
+  intros a b [L C]. unfold call_preamble. rewrite C. destruct (p_content b) as [t|]; auto. destruct (is_nil t); auto.
   cbv zeta. rewrite (lk_only_keys _ _ _ L), !(lk_kw _ _ _ L), (lk_kw_opt _ _ _ L). reflexivity.
 Qed.
 Lemma call_diff_lk : forall a b, dsec_lk a b -> call_diff a = call_diff b.
 Proof.
-  intros a b (L & C & UA & UB). unfold call_diff. rewrite C. destruct (x_content b); auto. destruct (is_nil b0); auto.
+  intros a b (L & C & UA & UB). unfold call_diff. rewrite C. destruct (x_content b) as [b0|]; auto. destruct (is_nil b0); auto.
   cbv zeta. pose proof (lk_remap "diff" _ _ UA UB L) as LR.
   rewrite (lk_only_keys _ _ _ LR), !(lk_kw _ _ _ LR). reflexivity.
 Qed.
@@ -2300,7 +2300,7 @@ Proof.
   rewrite (lk_only_keys _ _ _ LR), (lk_kw _ _ _ LR), (lk_kw_opt _ _ _ LR).
   destruct (negb (only_keys (remap "meta" (m_opts b)) ["encoding"; "meta_format"])); auto.
   destruct (m_content a) as [|pa ma]; [discriminate|]. destruct (m_content b) as [|pb mb]; [discriminate|].
-  unfold exec, do_call. cbn [wv_truthy nonempty negb]. unfold json_dump in D. rewrite D. reflexivity.
+  unfold exec, do_call. cbn [wv_truthy nonempty negb]. rewrite D. reflexivity.
 Qed.
 
 Lemma seq_all_ext : forall l l', Forall2 (fun f g => forall s, f s = g s) l l' -> forall s, seq_all l s = seq_all l' s.
